@@ -194,7 +194,7 @@ UNIT = Unit(
         Mutant('wrapper_inverted', HPP, r'(getNodeData\(\s*const XalanElement&\s+element,\s*ExecutionContext&\s+context,\s*XalanDOMString&\s+data\)\s*\{\s*if \()!(context\.hasPreserveOrStripSpaceConditions\(\)\))', r'\1\2', expect='context-free walk'),
         Mutant('listener_text_child_skipped', CPP, r'(FormatterListener&\s+formatterListener,\s*DOMServices::MemberFunctionPtr\s+function\)\s*\{\s*assert\(executionContext\.hasPreserveOrStripSpaceConditions\(\) == true\);\s*const XalanNode::NodeType\s+theType = child->getNodeType\(\);.*?)theType == XalanNode::CDATA_SECTION_NODE\)', r'\1false)', expect='text child is strip-checked'),
     ],
-    mechanisms=['string-value computation consults shouldStripSourceNode (DOMServices::getNodeData with ExecutionContext)'],
+    mechanisms=['string-value computation consults shouldStripSourceNode (DOMServices::getNodeData with ExecutionContext)', 'string-value computation with strip awareness'],
     assumptions=['each function is verified against the contracts of the functions it calls (mutual recursion cut by contracts); that the sibling/child walks enumerate every child exactly once and terminate is not proved (DOM accessors return arbitrary nodes)',
                  'a document has a document element (in-code assert of the real code, dropped)',
                  'the context-free family (no declarations) is not under contract',
